@@ -1,43 +1,92 @@
 #!/usr/bin/env python3
-"""confirm_seed.py <Cxx> <mutK>  -- confirm a seeded change in its scratch worktree (/tmp/seed/Cxx):
-demo passes on the clean tree, fails with the patch, and every baseline-stable test still passes with the patch.
-On success copies patch.diff, demo.py, meta.json (+ confirmation record) to /verif/seeded/<Cxx>-<mutK>/."""
-import json, os, shutil, subprocess, sys, xml.etree.ElementTree as ET
+"""confirm_seed.py <Cxx> <mK> [--tier quick|thorough] [--no-check]
+
+Confirms a seeded change produced by an independent sub-agent (in /tmp/seed/out_<Cxx>/<mK>/: patch.diff, demo.py,
+meta.json) in a scratch worktree of /repo (never in /repo itself):
+  1. demo.py exits 0 on the clean tree and non-zero with the patch,
+  2. every test of BASELINE.json's stable_pass still passes with the patch (hook guard off),
+  3. runs /verif's check of that property against the patched copy (ZEPID_REPO=<scratch>) and records whether it
+     raised a VIOLATION and through which gate.
+On success of 1+2 the change is kept as /verif/seeded/<Cxx>/<mK>/ (patch.diff, demo.py, meta.json)."""
+import json
+import os
+import re
+import shutil
+import subprocess
+import sys
+import xml.etree.ElementTree as ET
+
+VERIF = os.path.dirname(os.path.dirname(os.path.abspath(__file__)))
 pid, mut = sys.argv[1], sys.argv[2]
-wt = '/tmp/seed/%s' % pid
-src = '/tmp/seed/out/%s/%s' % (pid, mut)
-env = dict(os.environ, PYTHONPATH=wt, MPLBACKEND='Agg')
-def sh(cmd, **kw):
-    return subprocess.run(cmd, cwd=wt, env=env, stdout=subprocess.PIPE, stderr=subprocess.STDOUT, text=True, **kw)
-sh(['git', 'checkout', '--', '.'])
-r0 = sh(['/venv/bin/python', src + '/demo.py'], timeout=1200)
-a = sh(['git', 'apply', src + '/patch.diff'])
-if a.returncode != 0:
-    print(pid, mut, 'PATCH DOES NOT APPLY', a.stdout[-300:]); sys.exit(1)
-r1 = sh(['/venv/bin/python', src + '/demo.py'], timeout=1200)
-xml = '/tmp/seed/out/%s/%s.confirm.xml' % (pid, mut)
-sh(['/venv/bin/python', '-m', 'pytest', '-q', '-p', 'no:cacheprovider', '--timeout=900', '--continue-on-collection-errors',
-    '--junitxml=' + xml], timeout=3000)
-sh(['git', 'checkout', '--', '.'])
-stable = set(json.load(open('/root/.vp/BASELINE.json'))['stable_pass'])
-passed = set()
-for tc in ET.parse(xml).iter('testcase'):
-    if not any(c.tag in ('failure', 'error', 'skipped') for c in tc):
-        passed.add(tc.get('classname') + '::' + tc.get('name'))
-lost = sorted(stable - passed)
-ok = r0.returncode == 0 and r1.returncode != 0 and not lost
-print(pid, mut, 'demo clean rc=%d, patched rc=%d, stable tests lost=%d -> %s' % (r0.returncode, r1.returncode, len(lost), 'CONFIRMED' if ok else 'REJECTED'))
-if ok:
-    dst = '/verif/seeded/%s-%s' % (pid, mut)
-    os.makedirs(dst, exist_ok=True)
-    for f in ('patch.diff', 'demo.py'):
-        shutil.copy(os.path.join(src, f), dst)
+tier = sys.argv[sys.argv.index('--tier') + 1] if '--tier' in sys.argv else 'quick'
+src = '/tmp/seed/out_%s/%s' % (pid, mut)
+wt = '/tmp/seed/confirm_%s_%s' % (pid, mut)
+subprocess.run(['git', '-C', '/repo', 'worktree', 'remove', '--force', wt], stdout=subprocess.DEVNULL, stderr=subprocess.DEVNULL)
+subprocess.run(['git', '-C', '/repo', 'worktree', 'add', '--detach', wt, 'HEAD'], check=True, stdout=subprocess.DEVNULL,
+               stderr=subprocess.DEVNULL)
+env = {k: v for k, v in os.environ.items() if k != 'ZEPID_VERIF'}
+env.update(PYTHONPATH=wt, MPLBACKEND='Agg')
+
+
+def sh(cmd, cwd=wt, e=env, **kw):
+    return subprocess.run(cmd, cwd=cwd, env=e, stdout=subprocess.PIPE, stderr=subprocess.STDOUT, text=True, **kw)
+
+
+try:
+    shutil.copy(src + '/demo.py', wt + '/_demo.py')
+    r0 = sh(['/venv/bin/python', '_demo.py'], timeout=1800)
+    a = sh(['git', 'apply', src + '/patch.diff'])
+    if a.returncode != 0:
+        print(pid, mut, 'PATCH DOES NOT APPLY', a.stdout[-300:])
+        sys.exit(1)
+    r1 = sh(['/venv/bin/python', '_demo.py'], timeout=1800)
+    xml = '/tmp/seed/out_%s/%s.confirm.xml' % (pid, mut)
+    sh(['/venv/bin/python', '-m', 'pytest', '-q', '-p', 'no:cacheprovider', '--timeout=900',
+        '--continue-on-collection-errors', '--junitxml=' + xml], timeout=3000)
+    stable = set(json.load(open('/root/.vp/BASELINE.json'))['stable_pass'])
+    passed = set()
+    for tc in ET.parse(xml).iter('testcase'):
+        if not any(c.tag in ('failure', 'error', 'skipped') for c in tc):
+            passed.add(tc.get('classname') + '::' + tc.get('name'))
+    lost = sorted(stable - passed)
+    ok = r0.returncode == 0 and r1.returncode != 0 and not lost
+    print(pid, mut, 'demo clean rc=%d, patched rc=%d, stable tests lost=%d -> %s'
+          % (r0.returncode, r1.returncode, len(lost), 'CONFIRMED' if ok else 'REJECTED'))
+    if not ok:
+        print(r0.stdout[-400:], r1.stdout[-400:], lost[:5])
+        sys.exit(1)
     meta = json.load(open(os.path.join(src, 'meta.json')))
     meta['confirmed'] = {'demo_clean_rc': r0.returncode, 'demo_patched_rc': r1.returncode, 'stable_tests_lost': 0,
                          'stable_tests': len(stable), 'passing_with_patch': len(passed),
-                         'ran': ['python demo.py (clean)', 'git apply patch.diff', 'python demo.py (patched)',
-                                 'pytest (full suite, patched) vs BASELINE.json stable_pass', 'git checkout -- .']}
+                         'ran': ['scratch worktree of /repo HEAD', 'python demo.py (clean)', 'git apply patch.diff',
+                                 'python demo.py (patched)', 'pytest full suite (patched, guard off) vs BASELINE stable_pass']}
+    if '--no-check' not in sys.argv and os.path.exists(os.path.join(VERIF, 'harness', 'props', pid.lower() + '.py')):
+        e2 = dict(os.environ, ZEPID_REPO=wt)
+        c = sh(['/venv/bin/python', 'harness/check.py', pid, '--tier', tier], cwd=VERIF, e=e2, timeout=7200)
+        viol = [ln for ln in c.stdout.splitlines() if ln.startswith('VIOLATION')]
+        summ = [ln for ln in c.stdout.splitlines() if ln.startswith(pid + ' tier=')]
+        gate = None
+        if viol:
+            gate = 'P/K (no-failing-input-found)' if 'no-failing-input-found' in viol[0] else 'D (failing input replayed)'
+            m = re.search(r'replay=(\S+)', viol[0])
+            if m and os.path.exists(os.path.join(VERIF, m.group(1))):
+                try:
+                    rec = json.load(open(os.path.join(VERIF, m.group(1))))
+                    meta.setdefault('detected', {})['first_failure'] = (rec.get('failures') or [{}])[0].get('what') or \
+                        (rec.get('no_longer_checks') or [''])[0]
+                except Exception:
+                    pass
+        meta.setdefault('detected', {}).update({'check': 'harness/check.py %s --tier %s (ZEPID_REPO=scratch copy with the patch)'
+                                                % (pid, tier), 'exit': c.returncode, 'violation': bool(viol), 'gate': gate,
+                                                'summary': summ[-1] if summ else c.stdout[-300:]})
+        print('   check exit=%d %s %s' % (c.returncode, 'CAUGHT via ' + gate if viol else 'MISSED', summ[-1] if summ else ''))
+        # leave Gen/ regenerated from the clean tree again
+        sh(['/venv/bin/python', 'harness/py2lean.py'], cwd=VERIF, e=dict(os.environ))
+    dst = os.path.join(VERIF, 'seeded', pid, mut)
+    os.makedirs(dst, exist_ok=True)
+    for f in ('patch.diff', 'demo.py'):
+        shutil.copy(os.path.join(src, f), dst)
     json.dump(meta, open(os.path.join(dst, 'meta.json'), 'w'), indent=1)
-else:
-    print(r0.stdout[-400:], r1.stdout[-400:], lost[:5])
-sys.exit(0 if ok else 1)
+finally:
+    subprocess.run(['git', '-C', '/repo', 'worktree', 'remove', '--force', wt], stdout=subprocess.DEVNULL,
+                   stderr=subprocess.DEVNULL)
